@@ -55,6 +55,8 @@ fn main() {
                     "C11" => checks::slices::run(&tier),
                     "C04" => checks::compare::run(&tier),
                     "C14" => checks::ext::run(&tier),
+                    "C05" => checks::logic::run(&tier),
+                    "C10" => checks::funcs::run(&tier),
                     "C06" | "C07" | "C08" => checks::lang::run(&prop, &tier),
                     _ => {
                         eprintln!("no check for {}", prop);
